@@ -257,6 +257,18 @@ pub fn observe<W: Write>(em: &mut Emitter<W>, suite: &str, grid: u8, case: &Valu
         "paths" => suite_paths(&g, grid),
         "centrality" => suite_centrality(&g),
         "weighted" => suite_weighted(&g),
+        "eigen" => crate::algo2::suite_eigen(&g),
+        "api" => {
+            let mut a = crate::api::suite_api(&g);
+            // louvain under the watchdog
+            let mut outs: std::collections::BTreeSet<String> = Default::default();
+            for c in crate::api::louvain_api_calls() {
+                let r = pool.call(&json!({"case": case, "call": {"kind": "louvain", "args": c}}), std::time::Duration::from_secs(10));
+                outs.insert(crate::api::res_string_of_louvain(&r));
+            }
+            a["calls"].as_array_mut().unwrap().push(json!({"f": "louvain_partitions", "shape": "none", "outs": outs.iter().collect::<Vec<_>>(), "panic": ""}));
+            a
+        }
         "components" => crate::algo2::suite_components(&g, if big { 50 } else { 5 }),
         "cluster" => crate::algo2::suite_cluster(&g, &mut rng, if big { 31 } else { 15 }),
         "partitions" => crate::algo2::suite_partitions(&g, &mut rng, if big { 5000 } else { 600 }),
